@@ -5,7 +5,7 @@ ID = 'C06'
 HARNESSES = ['h_c06.cpp']
 LEVEL = 'model_checking'
 BUDGET = {'quick': 200, 'thorough': 1500}
-BOUNDS = {'quick': 'data sets of n = 0..3 frames (2 points x 1 channel x 1-2 sub-frames), all floats symbolic; target index a free 64-bit variable constrained only by idx <= n+3; append; point/channel columns by frames and by name, also after an indexed store 3 beyond the end (gap frames)',
+BOUNDS = {'quick': 'data sets of n = 0..3 frames (2 points x 1 channel x 1-2 sub-frames), all floats symbolic; target index a free 64-bit variable constrained only by idx <= n+3; append; point/channel columns by frames and by name, also after an indexed store 3 beyond the end (gap frames); the same store idiom of Points, Analogs and SubFrame with a free index; Data::frame with points-only / analogs-only / empty frames at every index',
           'thorough': 'n = 0..5, shapes up to 3 points x 2 channels x 2 sub-frames, idx <= n+5'}
 OUTSIDE = 'indices beyond n+3 (n+5): they only add more empty frames (allocation size is C16/C17 matter); n > 3 (5)'
 ASSUMPTIONS = ['the frame given carries the declared shape (C07 covers deviations)']
@@ -23,7 +23,43 @@ def jobs(tier, seed):
                 if mode in (2, 4) and P == 0: continue
                 out.append({'entry': 'h_c06', 'harness': 'h_c06.cpp', 'name': ['append', 'indexed', 'point-column', 'channel-column', 'point-by-name', 'channel-by-name', 'gap-then-point-by-name', 'gap-then-point-column'][mode],
                             'cfg': {'n': n, 'mode': mode, 'P': P, 'C': C, 'S': S, 'beyond': 3 if tier == 'quick' else 5}})
+    for n in (1, 2, 3):
+        for variant in (0, 1, 2, 3):
+            for where in [-1] + list(range(n + 2)):
+                out.append({'entry': 'h_c06_data', 'harness': 'h_c06.cpp', 'name': 'data-store-' + ['points-only', 'analogs-only', 'empty', 'full'][variant], 'cfg': {'n': n, 'variant': variant, 'where': where, 'mode': 1 if where >= 0 else 0, 'P': 2, 'C': 1, 'S': 2}})
+    for kind in (0, 1, 2):
+        for n in range(top + 1):
+            for append in (0, 1):
+                out.append({'entry': 'h_c06_inner', 'harness': 'h_c06.cpp', 'name': ['points', 'subframes', 'channels'][kind] + ('-append' if append else '-indexed'), 'cfg': {'kind': kind, 'n': n, 'append': append, 'beyond': 3}})
     return out
+
+def inner_obligations(sec, job, st, idx, resolve=lambda v: v):
+    cfg = job['cfg']; n = cfg['n']; kind = cfg['kind']
+    ins = [v for l, v in sec['in'] if l == 'in']; new = dict(sec['in'])['new']
+    out = sec['out']; count = resolve(dict(out)['count'])
+    xs = [v for l, v in out if l == 'x']; O = []
+    nm = 'inner/' + ['points', 'subframes', 'channels'][kind]
+    exp_count = n + 1 if cfg['append'] else (n if idx < n else idx + 1)
+    tgt = n if cfg['append'] else idx
+    O.append(Obl(nm + '/count', count != exp_count, 'store at %s in %d elements gives %s, expected %d' % ('end' if cfg['append'] else idx, n, count, exp_count)))
+    if count != exp_count: return O
+    if kind == 1:
+        ns = [resolve(v) for l, v in out if l == 'n']; k = 0
+        for i in range(exp_count):
+            if i == tgt: O.append(Obl(nm + '/target', ns[i] != 1 or neq(new, xs[k]), 'stored sub-frame %d' % i)); k += 1
+            elif i < n: O.append(Obl(nm + '/others-unchanged', ns[i] != 1 or neq(ins[i], xs[k]), 'sub-frame %d' % i)); k += 1
+            else: O.append(Obl(nm + '/gap-empty', ns[i] != 0, 'gap sub-frame %d holds %s channels' % (i, ns[i])))
+        return O
+    for i in range(exp_count):
+        if i == tgt: O.append(Obl(nm + '/target', neq(new, xs[i]), 'stored element %d' % i))
+        elif i < n: O.append(Obl(nm + '/others-unchanged', neq(ins[i], xs[i]), 'element %d' % i))
+        elif kind == 0: O.append(Obl(nm + '/gap-empty', neq(0, xs[i]), 'gap point %d is not zero' % i))
+    if kind == 0:
+        rs = [v for l, v in out if l == 'r']
+        for i in range(exp_count):
+            if i == tgt: O.append(Obl(nm + '/target', neq(new, rs[i]), 'residual of stored point %d' % i))
+            elif i < n: O.append(Obl(nm + '/others-unchanged', neq(ins[i], rs[i]), 'residual of point %d' % i))
+    return O
 
 def frames_of(sec):
     return obsmodel.parse_dump(sec)['frames'] or []
@@ -92,6 +128,14 @@ def obligations(sec, job, st, idx=None):
 
 def run_job(engine, job):
     eng = engine('O1')
+    if job['entry'] == 'h_c06_data':
+        return std_run(engine, job, lambda sec, job, st: obligations(sec, job, st, job['cfg']['where']), 'c06.end', ID, job['name'])
+    if job['entry'] == 'h_c06_inner':
+        def obl2(sec, job, st):
+            v = dict(sec['in'])['idx']
+            rs = lambda x: x if is_c(x) else eng.concretize(st, x, 1)[0]
+            return inner_obligations(sec, job, st, rs(v), rs)
+        return std_run(engine, job, obl2, 'c06.end', ID, job['name'])
     def obl(sec, job, st):
         idx = None
         if job['cfg']['mode'] == 1:
@@ -103,6 +147,12 @@ def run_job(engine, job):
 def native_confirm(nat, v):
     out, sec = native_sections(nat, v['replay'])
     if out['rc'] != 0: return None
+    if v['job']['entry'] == 'h_c06_data':
+        obls = obligations(sec, v['job'], None, v['job']['cfg']['where'])
+        return any(o.bad is True and o.locus == v['id'].split('/', 2)[-1] for o in obls)
+    if v['job']['entry'] == 'h_c06_inner':
+        obls = inner_obligations(sec, v['job'], None, dict(sec['in'])['idx'])
+        return any(o.bad is True and o.locus == v['id'].split('/', 2)[-1] for o in obls)
     idx = dict(sec.get('call', [])).get('idx')
     obls = obligations(sec, v['job'], None, idx)
     locus = v['id'].split('/', 2)[-1]
